@@ -90,10 +90,11 @@ def _enclosing_handlers(ctx, fn, node) -> list[str]:
 def _is_first_missing(r, pol: bool, ex: ast.expr) -> bool:
     """fact `m is not None` (or truthy m) where m = next((x for x in xs if not exists(x)), None): some path does not exist"""
     name = None
-    if (not pol) and isinstance(ex, ast.Compare) and len(ex.ops) == 1 and isinstance(ex.ops[0], ast.Is) and isinstance(ex.comparators[0], ast.Constant) and ex.comparators[0].value is None and isinstance(ex.left, ast.Name):
-        name = ex.left
+    sentinel = None
+    if (not pol) and isinstance(ex, ast.Compare) and len(ex.ops) == 1 and isinstance(ex.ops[0], ast.Is) and isinstance(ex.comparators[0], (ast.Constant, ast.Name)) and isinstance(ex.left, ast.Name):
+        name, sentinel = ex.left, ex.comparators[0]
     elif pol and isinstance(ex, ast.Name):
-        name = ex
+        name, sentinel = ex, ast.Constant(value=None)
     if name is None:
         return False
     v = r.expand(name)
@@ -101,7 +102,10 @@ def _is_first_missing(r, pol: bool, ex: ast.expr) -> bool:
         v = v.value
     if not (isinstance(v, ast.Call) and call_name(v) == "next" and len(v.args) == 2 and isinstance(v.args[0], (ast.GeneratorExp, ast.ListComp))):
         return False
-    if not (isinstance(v.args[1], ast.Constant) and v.args[1].value is None):
+    # the value tested against is the very default handed to next(): None, or a module-level sentinel object
+    if unparse(v.args[1]) != unparse(sentinel) or not isinstance(v.args[1], (ast.Constant, ast.Name)):
+        return False
+    if isinstance(v.args[1], ast.Constant) and v.args[1].value is not None:
         return False
     from ..flow import cond_facts
 
@@ -215,7 +219,7 @@ def rule_status_map(ctx, rep):
                 or any(_is_first_missing(run_r, pol, ex) for pol, ex in facts)
             report_failed = any(
                 any(isinstance(c, ast.Call) and last_attr(c.func) == "write_report" for c in ast.walk(ex))
-                or any(isinstance(run_r.expand(nm), ast.Call) and last_attr(run_r.expand(nm).func) == "write_report" for nm in ast.walk(ex) if isinstance(nm, ast.Name))
+                or any(any(isinstance(c, ast.Call) and last_attr(c.func) == "write_report" for c in ast.walk(run_r.expand(nm))) for nm in ast.walk(ex) if isinstance(nm, ast.Name))
                 or any(_holds_report_status(run, nm.id) for nm in ast.walk(ex) if isinstance(nm, ast.Name))
                 for pol, ex in facts
             )
@@ -242,6 +246,10 @@ def rule_status_map(ctx, rep):
                 if want != {val}:
                     ok = False
                     why = f"returns {val} after the handler of {handlers}, documented status is {sorted(x for x in want if x is not None) or '?'}"
+            elif exists_false and report_failed and val == 2:
+                # both facts hold on this path (an earlier existence test whose loop variable is still in scope); the status is that of
+                # the condition that guards this very return, the failed report write
+                classes.add("report-write-failed")
             elif exists_false:
                 classes.add("missing-path")
                 if val != 1:
@@ -358,6 +366,8 @@ def rule_zero_after_report(ctx, rep):
             def atom(e):
                 if isinstance(e, (ast.BoolOp, ast.NamedExpr)) or (isinstance(e, ast.UnaryOp) and isinstance(e.op, ast.Not)):
                     return None
+                if isinstance(e, ast.Compare) and len(e.ops) == 1 and isinstance(e.ops[0], (ast.Is, ast.IsNot)) and isinstance(e.comparators[0], ast.Constant) and e.comparators[0].value is None:
+                    return None  # a nullness fact about the status value says nothing about the status
                 for nm in ast.walk(e):
                     if isinstance(nm, ast.Call) and last_attr(nm.func) == "write_report":
                         return "WR"
@@ -365,7 +375,7 @@ def rule_zero_after_report(ctx, rep):
                         x = r.expand(nm)
                         # the status itself, or a value that is the status on one arm (`st = report.write_report(p) if p else 0`)
                         alts = [x.body, x.orelse] if isinstance(x, ast.IfExp) else (list(x.values) if isinstance(x, ast.BoolOp) else [x])
-                        if any(isinstance(a, ast.Call) and last_attr(a.func) == "write_report" for a in alts):
+                        if any(isinstance(c, ast.Call) and last_attr(c.func) == "write_report" for a in alts for c in ast.walk(a)):
                             return "WR"
                         if _holds_report_status(run, nm.id):
                             return "WR"
